@@ -173,7 +173,7 @@ impl Check for C02 {
     }
     fn units(&self, tier: Tier) -> Vec<Unit> {
         vec![
-            Unit::gen("gen", 16, tier.pick(6000, 150_000)),
+            Unit::gen("gen", 16, tier.pick(30_000, 250_000)),
             Unit::enumerate("tokens", 16),
             Unit::enumerate("large", tier.pick(4, 16)),
             Unit::enumerate("cli", tier.pick(4, 16)),
